@@ -27,6 +27,10 @@ func (c16) Gen(r *rand.Rand, tier string, run int) *core.Case {
 	if c.Net.ReadMode == "tiny" {
 		c.Net.ReadMode = "random"
 	}
+	if r.IntN(5) == 0 {
+		c16genClientSide(c, r)
+		return c
+	}
 	objs := 2 + r.IntN(3)
 	c.Params["objects"] = objs
 	c.Params["conns"] = 1 + r.IntN(3)
@@ -97,11 +101,16 @@ type c16state struct {
 	mu   sync.Mutex
 	objs []*c16obj
 	w    *World
+	cs   *c16cs // the client-side sub-batch
 }
 
 func (c16) Run(c *core.Case, env *core.Env) {
 	st := &c16state{}
 	env.Set("st", st)
+	if c.P("clientside", 0) == 1 {
+		c16clientSide(c, env, st)
+		return
+	}
 	w, err := StartServer(env, bus.Dictionary(map[string]string{"u": "p"}), 1)
 	if err != nil {
 		env.Violate("harness/setup", "%v", err)
@@ -338,6 +347,10 @@ func c16slow(env *core.Env, a, i int, o *c16obj, which int) {
 func (c16) Check(c *core.Case, env *core.Env, res zzsim.Result, v *core.Verdict) {
 	st, _ := env.Get("st").(*c16state)
 	if st == nil || st.w == nil {
+		return
+	}
+	if st.cs != nil {
+		c16checkClientSide(c, env, res, v, st.cs)
 		return
 	}
 	bad := func(class, format string, args ...interface{}) {
